@@ -228,10 +228,15 @@ func (m *mon) traitServerCase(ent srvkit.ServerEntry, rng *vk.Rand, caseNo int) 
 			cancels = append(cancels, cancel)
 			var mu sync.Mutex
 			fs := &srvkit.FakeStream{Ctx: ctx, Send: func(pm proto.Message) { mu.Lock(); mu.Unlock() }}
+			unmasked := rng.Chance(1, 3) // a stream without a mask (nil mask: everything) must not touch the store either
 			fill := func(req proto.Message) {
 				proto.Merge(req, vk.GenMessage(rng.Fork(), req, vk.GenOpts{Density: 20, MaxDepth: 1, MaxList: 1}))
 				pool.Apply(rng, req.ProtoReflect(), 0)
-				setMask(req)
+				if unmasked {
+					req.ProtoReflect().Clear(req.ProtoReflect().Descriptor().Fields().ByName("read_mask"))
+				} else {
+					setMask(req)
+				}
 			}
 			h := mt.stream.Handler
 			go func() {
@@ -244,7 +249,11 @@ func (m *mon) traitServerCase(ent srvkit.ServerEntry, rng *vk.Rand, caseNo int) 
 				return
 			}
 			r.Count("trait-server/masked-reads", 1)
-			r.Count("trait-server/masked-streams-opened", 1)
+			if unmasked {
+				r.Count("trait-server/unmasked-streams-opened", 1)
+			} else {
+				r.Count("trait-server/masked-streams-opened", 1)
+			}
 		} else {
 			// use the request of a snapshot of this method when there is one, so that the projection can be compared
 			var base *snap
